@@ -563,7 +563,7 @@ def gen_malformed(ck):
     for esc in (b"\\q", b"\\8", b"\\9", b"\\x", b"\\xg", b"\\X41", b"\\u0041", b"\\ ", b"\\\x00", b"\\\xc3\xa9", b"\x00",
                 b"a\x00b"):
         for p in ("", "L"):
-            out.append({"kind": "str", "tokens": [p.encode() + b'"a' + esc + b'b"'], "tag": "escape:" + esc.hex()})
+            out.append({"kind": "str", "tokens": [p.encode() + b'"a' + esc + b'z"'], "tag": "escape:" + esc.hex()})
             out.append({"kind": "chr", "tokens": [p.encode() + b"'" + esc + b"'"], "tag": "escape:" + esc.hex()})
     out.append({"kind": "str", "tokens": [b'"abc\n"'], "tag": "newline"})
     out.append({"kind": "chr", "tokens": [b"'a\n'"], "tag": "newline"})
@@ -692,18 +692,19 @@ def model_str(line):
     return ("err", f[1])
 
 
-def check_string_case(kb, target, case, toks, orc, mod, rc, out, err, idx):
+def check_string_case(kb, target, case, toks, orc, mod, rc, out, err, idx, data=None):
     """Evaluate one compiled string literal.  Returns a replay dict on a problem, else None; the
     second component says whether the problem is a property failure (True) or model staleness."""
     ck = kb.ck
     src_txt = c_tokens(toks).decode("latin-1")
     base = {"target": target, "literal": src_txt, "literal_hex": [t.hex() for t in toks], "tag": case["tag"]}
-    data = parse_data(out)
+    if data is None:
+        data = parse_data(out)
     if orc[0] == "reject" or (mod is not None and mod[0] == "err"):
         # must be diagnosed
         if rc == 0:
             return dict(base, kind="accepted-malformed", what="literal that must be diagnosed was accepted",
-                        emitted=out[:300], oracle=orc, model=mod), True
+                        emitted=(out if len(out) < 400 else "")[:300], oracle=orc, model=mod), True
         if mod is not None and mod[0] == "err" and ERRMAP.get(mod[1], "\0") not in err:
             return dict(base, kind="correspondence", what="diagnostic differs from the model's", stderr=err[:300],
                         model=mod, theorem="C14.string_model"), False
@@ -809,9 +810,10 @@ def run_strings(kb, cases):
                 continue
             singles, batch, out = [bad] + singles, [], ""
             break
+        bdata = parse_data(out)
         for i in batch:
             c = cases[i]
-            rep, sev = check_string_case(kb, target, c, toks_all[i], orcs[i], mods[i], 0, out, "", i)
+            rep, sev = check_string_case(kb, target, c, toks_all[i], orcs[i], mods[i], 0, out, "", i, bdata)
             record_string(kb, target, c, orcs[i])
             if rep is not None and not report_string(kb, target, c, rep, sev):
                 return False
@@ -938,16 +940,22 @@ def run_chars(kb, cases):
 
 def run_malformed(kb, cases):
     ck = kb.ck
+    ops = []
+    for ci, c in enumerate(cases):
+        target = TARGETS[ci % 3]
+        if c["kind"] == "str":
+            ops.append("str %s %s" % (target, " ".join(t.hex() for t in c["tokens"])))
+        else:
+            ops.append("chr %s %s" % (target, c["tokens"][0].hex()))
+    mls = kb.model(ops)
     for ci, c in enumerate(cases):
         target = TARGETS[ci % 3]
         toks = c["tokens"]
         if c["kind"] == "str":
             src = b"char s0[] = " + c_tokens(toks) + (b"" if c.get("eof") else b";\n")
-            ml = kb.model(["str %s %s" % (target, " ".join(t.hex() for t in toks))])
         else:
             src = b"long c0 = " + toks[0] + (b"" if c.get("eof") else b";\n")
-            ml = kb.model(["chr %s %s" % (target, toks[0].hex())])
-        mod = ml[0].split() if ml else None
+        mod = mls[ci].split() if mls else None
         rc, out, err = kb.compile(target, src)
         kb.stats["malformed"] += 1
         ck.count(("malformed", c["kind"], c["tag"]))
@@ -1094,10 +1102,15 @@ def run(ck):
         % ("a seeded sample of 3-/4-byte blocks with every boundary lead/continuation combination" if ck.quick else
            "ALL 3-byte sequences and all 4-byte sequences F0..F7 80..BF xx xx (code points up to 0x1FFFFF)",
            500 if ck.quick else 6000, len(BAD_UTF8)))
+    import time
+    t0 = time.time()
     ck.lean_build()
+    t1 = time.time()
     if not ck.proofs_ok:
         ck.notes.append("Props.C14 does not build; searching for a failing input")
     run_ka(ck)
+    t2 = time.time()
+    ck.cov["phase_seconds"] = {"lean_build_audit": round(t1 - t0, 1), "K-A": round(t2 - t1, 1)}
     if not ck.violations:
         kb = KB(ck)
         cs, cc, cb = load_corpus()
@@ -1108,6 +1121,7 @@ def run(ck):
         if ok:
             ck.cov["oracle_validation"] = validate_oracle(ck, kb, strs, chars)
         ck.cov["kb_stats"] = kb.stats
+        ck.cov["phase_seconds"]["K-B+validation"] = round(time.time() - t2, 1)
         ck.cov["input_histogram"] = dict(sorted(kb.hist.items()))
         if strs:
             c = strs[min(len(strs) - 1, 700)]
